@@ -9,7 +9,7 @@ from ._scommon import (ASSUMPTIONS, COMPONENTS_REAL, COMPONENTS_STUB, MIN, TOL_U
                        simplifications, simulate)
 
 ID = "C15"
-RUNS = {"quick": 20000, "thorough": 600000}
+RUNS = {"quick": 24000, "thorough": 600000}
 BUDGET_S = {"quick": 90, "thorough": 900}
 CHUNK = 32
 LIST_KEYS = ("ops",)
